@@ -330,6 +330,10 @@ def m_c04(ctx, st):
         pl = by_id(st["pre"], lid)
         if pl:
             allowed |= {("listing", (pl["kowner"], lid)), ("listing", (a, lid)), ("bucket", (a, bid)), ("bucket", (pl["kowner"], bid))}
+            # only a *valid* purchase may take a listing from its owner: finalized and unsold before
+            if pl["kowner"] != a and (pl["status"] != "FinalizedReady" or pl["claimant"] is not None):
+                ctx.add("C04", "foreign_record_taken_by_invalid_purchase", st["i"],
+                        "%s bought listing %d of %s although it was %s / claimant %r" % (a, lid, pl["kowner"], pl["status"], pl["claimant"]))
             # the proceeds are filed under (seller, bid): a record the seller already holds there must not be overwritten
             if pl["kowner"] != a and (pl["kowner"], bid) in bmap(st["pre"]):
                 ctx.add("C04", "foreign_record_overwritten", st["i"], "bucket %r of the seller was overwritten by %s's purchase" % ((pl["kowner"], bid), a))
